@@ -29,19 +29,19 @@ var propStandins = map[string][]Standin{
 	"C14": {{
 		Name: "parse-totality", Pkg: "internal/query", TestFile: "parse_standin_test.go", TestName: "TestC14Standin", OutEnv: "C14_OUT",
 		EnvQuick: []string{"C14_TEXTS=6000"}, EnvThorough: []string{"C14_TEXTS=60000"},
-		Bound:   "the parser as a whole (participle grammar, every capture function, translation into conditions, Clean): 6000 (quick) / 60000 (thorough) seeded query texts - expressions of depth <= 2 over every filter kind with value lists, ranges, arithmetic on variables (also cancelling terms), host masks, relative and absolute times, tag name lists, converter names, sort/limit/group terms, sub-query prefixes, AND/OR/THEN/NOT and brackets, with edge values (empty list elements, huge numbers, malformed addresses and expressions); every third text is additionally damaged by one random edit (deleted, doubled or inserted character, truncation). Parse must return within 20 s without panicking; an accepted text parsed twice gives the same normal form, which prints without panicking. Texts with more than 6 list separators/ORs/negated brackets are skipped (exponential normal forms are outside the promptness claim)",
+		Bound:   "the parser as a whole (participle grammar, every capture function, translation into conditions, Clean): 6000 (quick) / 60000 (thorough) seeded query texts - expressions of depth <= 2 over every filter kind with value lists, ranges, arithmetic on variables (also cancelling terms), host masks, relative and absolute times, tag name lists, converter names, sort/limit/group terms, sub-query prefixes, AND/OR/THEN/NOT and brackets, with edge values (empty list elements, huge numbers, malformed addresses and expressions); every third text is additionally damaged by one random edit (deleted, doubled or inserted character, truncation); plus 35 texts with runs of 10 to 2^20 negations / brackets. Parse must return within 20 s without panicking; an accepted text parsed twice gives the same normal form, which prints without panicking. Texts with more than 6 list separators/ORs/negated brackets are skipped (exponential normal forms are outside the promptness claim)",
 		Timeout: 10 * time.Minute,
 	}},
 	"C10": {{
 		Name: "view-stability", Pkg: "internal/index/manager", TestFile: "view_standin_test.go", TestName: "TestC10Standin", OutEnv: "C10_OUT",
 		EnvQuick: []string{"C10_HISTORIES=25", "C10_LEN=12"}, EnvThorough: []string{"C10_HISTORIES=250", "C10_LEN=16"},
-		Bound:   "stability of a view over its lifetime (the copy-on-write discipline of every writer in the manager; only the enumeration kernel of a view is under contract): 25 (quick) / 250 (thorough) seeded histories of 12 / 16 manager calls out of AddTag (mark, tag, service with 6 definitions), mark add / mark delete, definition updates, imports of 4 more streams (up to 16), opening a view (at most 3 alive), releasing a view; every live view is asked again after every call - all streams with byte counts, HasTag for every tag it knew when it was opened, and searches for and against each of these tags - and must answer exactly as it did when it was opened. Background jobs (tagging, merging) run as they come; their interleaving is not controlled",
+		Bound:   "stability of a view over its lifetime (the copy-on-write discipline of every writer in the manager; only the enumeration kernel of a view is under contract): 25 (quick) / 250 (thorough) seeded histories of 12 / 16 manager calls out of AddTag (mark, tag, service with 6 definitions), mark add / mark delete, definition updates, imports of 4 more streams (up to 16), small imports of one new conversation in a capture of its own (up to 12; enough of them trigger merges that replace files a held view references), more data for an old small conversation alone in its capture, opening a view (at most 3 alive, a third of the histories start on an empty service), releasing a view; after every call a fresh view must still show every stream an earlier fresh view showed, with the same client endpoint (nothing reported processed disappears or changes identity), and every live view is asked again - all streams with byte counts, HasTag for every tag it knew when it was opened, and searches for and against each of these tags - and must answer exactly as it did when it was opened. Background jobs (tagging, merging) run as they come; their interleaving is not controlled",
 		Timeout: 10 * time.Minute,
 	}},
 	"C13": {{
 		Name: "refcount", Pkg: "internal/index/manager", TestFile: "refcount_standin_test.go", TestName: "TestC13Standin", OutEnv: "C13_OUT",
 		EnvQuick: []string{"C13_HISTORIES=12", "C13_LEN=30"}, EnvThorough: []string{"C13_HISTORIES=120", "C13_LEN=40"},
-		Bound:   "life time of index files across holders and goroutine hand-offs (only lock/release and the pairing inside each completion closure are under contract): 12 (quick) / 120 (thorough) seeded histories of 30 / 40 manager calls out of small imports (1-3 packets, new conversations and more data for old ones; enough of them trigger merges), AddTag / definition updates (tagging jobs), opening a view (at most 4 alive) and reading it, releasing a view, pauses; after every call every held view must still be able to read all its streams with payload (by enumeration and by id) and every index file it references must exist; at the end all views are released, the service is left alone until nothing runs, and then the index directory must hold exactly the files the service serves from, every served file must be counted exactly once, nothing else may be counted, Status.IndexLockCount must equal the number of served files and a fresh view must read everything. The interleaving of job completions is whatever the scheduler produces; converter jobs are not generated",
+		Bound:   "life time of index files across holders and goroutine hand-offs (only lock/release and the pairing inside each completion closure are under contract): 12 (quick) / 120 (thorough) seeded histories of 30 / 40 manager calls out of small imports (1-3 packets, new conversations and more data for old ones; enough of them trigger merges), AddTag / definition updates (tagging jobs), opening a view (at most 4 alive) and reading it, releasing a view, pauses, restarts on the same directories (after the old service went quiet); after every call every held view must still be able to read all its streams with payload (by enumeration and by id) and every index file it references must exist; at the end all views are released, the service is left alone until nothing runs, and then the index directory must hold exactly the files the service serves from, every served file must be counted exactly once, nothing else may be counted, Status.IndexLockCount must equal the number of served files and a fresh view must read everything. The interleaving of job completions is whatever the scheduler produces; converter jobs are not generated",
 		Timeout: 10 * time.Minute,
 	}},
 	"C07": {{
@@ -59,7 +59,7 @@ var propStandins = map[string][]Standin{
 	"C04": {{
 		Name: "payload-oracle", Pkg: "internal/index", TestFile: "search_standin_test.go", TestName: "TestC02Standin", OutEnv: "C02_OUT",
 		EnvQuick: []string{"C02_THEN=1", "C02_ANCHORS=1", "C02_VARS=1", "C02_ROUNDS=40", "C02_QUERIES=60"}, EnvThorough: []string{"C02_THEN=1", "C02_ANCHORS=1", "C02_VARS=1", "C02_ROUNDS=200", "C02_QUERIES=80"},
-		Bound:   "payload filters end to end (expression analysis, shortcut scan, sequence progress across chunks and directions, success/failure accounting, negation): the search-oracle stand-in of C02 (populations of up to 9 stream ids over 1-3 index files, 0-3 payload chunks per stream in either direction out of 10 chunk texts) where half of the payload atoms are THEN chains of 1-3 cdata/sdata elements over 11 expressions (literals, classes, repetition, alternation, fixed and variable length, with literal prefixes and suffixes) plus 8 expressions with assertions (^ $ \\A \\z \\b); compared with a plain left-to-right scan: each element is searched with Go's regexp in its direction's payload from where the previous match ended, and a match ending in chunk i puts the other direction's position after chunk i; also negated and combined with other filters; 40 (quick) / 200 (thorough) populations x 60 / 80 queries. a third of the chains bind a named group in the first element and require its text again in a later element (@v@); Not generated: variables from sub-queries, data filters without direction inside chains, converter outputs",
+		Bound:   "payload filters end to end (expression analysis, shortcut scan, sequence progress across chunks and directions, success/failure accounting, negation): the search-oracle stand-in of C02 (populations of up to 9 stream ids over 1-3 index files, 0-3 payload chunks per stream in either direction out of 10 chunk texts) where half of the payload atoms are THEN chains of 1-3 cdata/sdata elements over 11 expressions (literals, classes, repetition, alternation, fixed and variable length, with literal prefixes and suffixes) plus 8 expressions with assertions (^ $ \\A \\z \\b); compared with a plain left-to-right scan: each element is searched with Go's regexp in its direction's payload from where the previous match ended, and a match ending in chunk i puts the other direction's position after chunk i; also negated and combined with other filters; 40 (quick) / 200 (thorough) populations x 60 / 80 queries. a third of the chains bind a named group in the first element (also optional groups and groups in an alternative that is not taken) and require its text again in a later element (@v@); a fifth of the longer chains negate their last element (a then -b); Not generated: variables from sub-queries, data filters without direction inside chains, converter outputs",
 		Timeout: 10 * time.Minute,
 	}},
 	"C03": {{
@@ -82,7 +82,7 @@ var propStandins = map[string][]Standin{
 	"C11": {{
 		Name: "tag-api", Pkg: "internal/index/manager", TestFile: "tags_standin_test.go", TestName: "TestC11Standin", OutEnv: "C11_OUT",
 		EnvQuick: []string{"C11_SEQS=150", "C11_LEN=7"}, EnvThorough: []string{"C11_SEQS=1500", "C11_LEN=9"},
-		Bound:   "the tag management API as a whole through a real Manager (validation outside the handlers, UpdateTag, acyclicity, atomicity of rejected calls, responsiveness): 150 (quick) / 1500 (thorough) seeded random sequences of 7 / 9 calls out of AddTag, DelTag, UpdateTag(query | colour | name | mark add | mark del) over 9 names (6 valid, 3 invalid), 14 fixed definitions plus definitions over the tags that exist, 6 stream id lists, with and without 4 imported streams; after every call: error exactly when a plain model of the graph rejects it (unknown/duplicate/invalid name, parse error, self reference, missing reference, reference cycle, delete or rename of a referenced tag, unknown stream id), a rejected call leaves ListTags unchanged, names/definitions/colours/Referenced flags/mark counts equal the model, every call answers within 10 s",
+		Bound:   "the tag management API as a whole through a real Manager (validation outside the handlers, UpdateTag, acyclicity, atomicity of rejected calls, responsiveness): 150 (quick) / 1500 (thorough) seeded random sequences of 7 / 9 calls out of AddTag, DelTag, UpdateTag(query | colour | name | mark add | mark del | converter set), restart, over 9 names (6 valid, 3 invalid), 14 fixed definitions plus definitions over the tags that exist, 9 stream id lists (incl. ids 2^64-1 and 2^64-2), 7 converter lists over three installed converters and an unknown one, with and without 4 imported streams; after every call: error exactly when a plain model of the graph rejects it (unknown/duplicate/invalid name, parse error, self reference, missing reference, reference cycle, delete or rename of a referenced tag, unknown stream id), a rejected call leaves ListTags unchanged, names/definitions/colours/Referenced flags/mark counts/attached converters equal the model, every call answers within 10 s",
 		Timeout: 10 * time.Minute,
 	}},
 	"C02": {{
